@@ -278,6 +278,11 @@ var allTypes = []reflect.Type{
 	reflect.TypeFor[*ast.IncDecStmt](),
 	reflect.TypeFor[*ast.BasicLit](),
 	reflect.TypeFor[*ast.Ellipsis](),
+	reflect.TypeFor[*ast.IndexListExpr](),
+	// The nodes whose lists List patterns, and thus also Any, Not and unbound
+	// bindings, match.
+	reflect.TypeFor[*ast.BlockStmt](),
+	reflect.TypeFor[*ast.FieldList](),
 }
 
 var nodeToASTTypes = map[reflect.Type][]reflect.Type{
